@@ -135,6 +135,14 @@ type peerReq struct {
 	hash    bitcoin.Hash32
 }
 
+// hdrMsg: one headers message of the peer and what its best chain was when it sent it.
+type hdrMsg struct {
+	end      int64  // bytes written on the connection including this message
+	bestTip  string // the peer's best tip at that moment
+	bestH    int
+	reachedTip bool // the message ended at that tip (or was empty because the locator was the tip)
+}
+
 type peerConn struct {
 	conn        *vnet.VConn
 	addr        string
@@ -150,6 +158,7 @@ type peerConn struct {
 	announced   map[string]int64 // block name -> total bytes written when its header had been sent
 	written     int64
 	lastTold    string // tip the peer believes the node knows (for announcements)
+	hdrMsgs     []hdrMsg // every headers message sent on this connection
 	gen         int
 }
 
@@ -186,6 +195,7 @@ type WorldCfg struct {
 	Contracts      bool
 	MaxPoints      int64
 	ExtraTrunk     int // trunk blocks mined beyond InitialChain that are not announced at boot
+	HeaderBatch    int `json:",omitempty"` // most headers the peer puts into one headers message (0 = 2000, Bitcoin's limit)
 }
 
 type World struct {
@@ -569,18 +579,23 @@ func (w *World) Answer(pc *peerConn, k int) bool {
 				break
 			}
 		}
+		batch := 2000
+		if w.cfg.HeaderBatch > 0 {
+			batch = w.cfg.HeaderBatch
+		}
 		hm := wire.NewMsgHeaders()
-		for i := from + 1; i < len(w.Best) && len(hm.Headers) < 2000; i++ {
+		for i := from + 1; i < len(w.Best) && len(hm.Headers) < batch; i++ {
 			hd := w.Tree.blocks[w.Best[i]].msg.Header
 			hm.AddBlockHeader(&hd)
 		}
 		w.send(pc, hm)
-		for i := from + 1; i < len(w.Best) && i <= from+2000; i++ {
+		pc.hdrMsgs = append(pc.hdrMsgs, hdrMsg{end: pc.written, bestTip: w.Best[len(w.Best)-1], bestH: len(w.Best) - 1, reachedTip: from+len(hm.Headers) >= len(w.Best)-1})
+		for i := from + 1; i < len(w.Best) && i <= from+batch; i++ {
 			if _, ok := pc.announced[w.Best[i]]; !ok {
 				pc.announced[w.Best[i]] = pc.written
 			}
 		}
-		if from+2000 >= len(w.Best)-1 {
+		if from+batch >= len(w.Best)-1 {
 			pc.lastTold = w.Best[len(w.Best)-1]
 		}
 	case "block":
@@ -639,6 +654,7 @@ func (w *World) Announce(pc *peerConn) {
 		hm.AddBlockHeader(&hd)
 	}
 	w.send(pc, hm)
+	pc.hdrMsgs = append(pc.hdrMsgs, hdrMsg{end: pc.written, bestTip: tip, bestH: len(w.Best) - 1, reachedTip: true})
 	for i := fork + 1; i < len(w.Best); i++ {
 		if _, ok := pc.announced[w.Best[i]]; !ok {
 			pc.announced[w.Best[i]] = pc.written
